@@ -112,6 +112,31 @@ def h_skip(params, vals, ctx):
     return code[pre + s] == 2 and o.symbol("L") == b + pre + s and o.base == b
 
 
+def h_skip_repeat(params, vals, ctx):
+    """'. = . + S' inside a '.repeat' body skips in every copy."""
+    b, sk, n = vals["B"], vals["S"], params["n"]
+    require(16 <= b < 60000)   # new addresses in (-2^16, 0) wrap modulo 2^16 like a negative link base: not asserted (see h_skip)
+    require(-3 <= sk <= params.get("max_skip", 6))
+    o = assemble([("a.mac", ".link {B}\n.repeat %d {\n.byte 1\n. = . + {S}\n}\nL: .byte 2\n" % n)], vals, route=ctx.route)
+    ctx.observe_outcome(o)
+    accept = sk >= 0
+    ctx.reach(accept)
+    if not accept:
+        return o.status == "failed" and "value-out-of-bounds" in o.error_ids
+    if o.status != "ok" or o.errors:
+        return False
+    code = o.code
+    if len(code) != n * (1 + sk) + 1:
+        return False
+    for k in range(n):
+        if code[k * (1 + sk)] != 1:
+            return False
+        for i in range(sk):
+            if code[k * (1 + sk) + 1 + i] != 0:
+                return False
+    return code[n * (1 + sk)] == 2 and o.symbol("L") == b + n * (1 + sk) and o.base == b
+
+
 def obligations(tier, seed):
     obs = []
 
@@ -178,6 +203,11 @@ def obligations(tier, seed):
         add(f"cancel/{where}/shl1", [("a.mac", put(".link {K} + ((E - T) << 1)"))], "accept", base=[[1, ["K"]], [24, []]], vars_=["K"], probes=pr3, length=14)
         add(f"cancel/{where}/div2", [("a.mac", put(".link {K} + (E - T) / 2"))], "accept", base=[[1, ["K"]], [6, []]], vars_=["K"], probes=pr3, length=14)
         add(f"cancel/{where}/mod", [("a.mac", put(".link {K} + (E - T) % 5"))], "accept", base=[[1, ["K"]], [2, []]], vars_=["K"], probes=pr3, length=14)
+        # negative differences: / floors (-4/3 == -2), % takes the sign of the divisor (-4 % 3 == 2)
+        add(f"cancel/{where}/negdiv3", [("a.mac", put(".link {K} + (S - E) / 3"))], "accept", base=[[1, ["K"]], [-2, []]], vars_=["K"], probes=pr3, length=14)
+        add(f"cancel/{where}/negdiv2-exact", [("a.mac", put(".link {K} + (T - E) / 2"))], "accept", base=[[1, ["K"]], [-6, []]], vars_=["K"], probes=pr3, length=14)
+        add(f"cancel/{where}/negmod3", [("a.mac", put(".link {K} + (S - E) % 3"))], "accept", base=[[1, ["K"]], [2, []]], vars_=["K"], probes=pr3, length=14)
+        add(f"cancel/{where}/negdiv-via-symbol", [("a.mac", put("HALF = (S - E) / 3\n.link {K} + HALF * 2"))], "accept", base=[[1, ["K"]], [-4, []]], vars_=["K"], probes=pr3, length=14)
     # labels in another file
     add("cancel/other-file", [("a.mac", ".link {K} + {M} * (E - S)\n.word 1\n"), ("b.mac", "S:: .word 2, 3\nE:: .word 4\n")], "accept",
         base=[[1, ["K"]], [4, ["M"]]], vars_=["K", "M"], length=8)
@@ -203,6 +233,8 @@ def obligations(tier, seed):
     # second .link
     add("conflict/two-links", [("a.mac", ".link {K}\n.word 1\n.link {M}\n")], "conflict", vars_=["K", "M"])
     add("conflict/link-then-file2", [("a.mac", ".link {K}\n.word 1\n"), ("b.mac", ".link {M}\n.word 2\n")], "conflict", vars_=["K", "M"])
+    add("conflict/two-identical-links", [("a.mac", ".link {K}\n.word 1\n.link {K}\n")], "conflict", vars_=["K"])
+    add("conflict/identical-links-two-files", [("a.mac", ".link {K} + LA - FA\nFA: .word 1\nLA:\n"), ("b.mac", ".link {K} + LA - FA\nFA: .word 2, 3\nLA:\n")], "conflict", vars_=["K"])
     add("conflict/dot-then-link", [("a.mac", ". = {K}\n.word 1\n.link {M}\n")], "conflict", vars_=["K", "M"])
     # '. = X' once the base is set
     mx = 64 if tier == "thorough" else 20
@@ -214,4 +246,7 @@ def obligations(tier, seed):
     ]:
         obs.append(Ob(oid=f"skip/{tag}", harness=HS, params={"text": text, "pre_len": pre, "max_skip": mx}, vars={"B": "int", "S": "int"},
                       timeout=400, per_path=60, note=text.replace("\n", " / "), pre=f"every S <= {mx} (all negative S), 0 <= B < 60000"))
+    for n in (1, 2, 3):
+        obs.append(Ob(oid=f"skip/in-repeat/{n}", harness="pdpverif.props.c12:h_skip_repeat", params={"n": n, "max_skip": 6}, vars={"B": "int", "S": "int"}, timeout=400, per_path=60,
+                      note=".link B / .repeat n { .byte 1 / . = . + S } / L: .byte 2"))
     return obs
